@@ -1,5 +1,5 @@
 import Gimli.Lemmas.LineHeader
-import Gimli.Lemmas.LebSigned
+import Gimli.Lemmas.Leb
 /-! decode ∘ encode = id for line-number instructions: the Model decoder (`parseInstr`, the mirror
 of `LineInstruction::parse`) inverts the Spec encoder (`Spec.Line.encodeInstr`, DWARF §6.2.5). -/
 namespace Gimli.Line
